@@ -345,8 +345,11 @@ def cases(tier: str, seed: int) -> List[Case]:
             if ncomments == 0 and n > 1:
                 continue
             if n == 4:
-                # thorough only: at most two comment lines and no blank/plain-comment filler pairs
+                # thorough only: at most two comment lines, no blank/plain-comment filler pairs, a tenth of them
                 if ncomments > 2 or sum(1 for k in kinds if k in ("M", "E")) > 1:
+                    continue
+                import zlib
+                if (zlib.crc32("/".join(kinds).encode()) + seed) % 10 != 0:
                     continue
             if n == 3 and quick and sum(1 for k in kinds if k in ("M", "E")) > 1:
                 continue
